@@ -749,6 +749,52 @@ def model_check(name, cases, base, max_rows=None):
     return [(where[i][0], where[i][1], codes) for i, codes in bad], len(rows), disc, ''
 
 
+def resolved_tags_spec(rule, dyn):
+    """C02's statement applied to ONE rule, from the implementation evaluator's verdict on each {expr} (dyn rows of the
+    oracle table): static tag -> lower-cased, stripped, non-empty; {expr} -> the value it evaluates to, as text, lower-cased
+    and stripped, dropped when empty / falsy / not evaluable; a list value contributes one tag per (non-empty) item.
+    Returns (set of tags, set of tags the statement forbids but a literal reading of the code would add)."""
+    vals = {d[0]: d[1:] for d in dyn}
+    out = set()
+    for raw in rule['tags']:
+        t = raw.strip()
+        if not t:
+            continue
+        if t.startswith('{') and t.endswith('}'):
+            e = t[1:-1].strip()
+            if not e or e not in vals:
+                continue
+            v = vals[e]
+            if v[0] == 'scalar' and v[1]:
+                s = v[2].strip().lower()
+                if s:
+                    out.add(s)
+            elif v[0] == 'list':
+                for truthy, item in v[1]:
+                    s = item.strip().lower()
+                    if truthy and s:
+                        out.add(s)
+        else:
+            out.add(t.lower())
+    return out
+
+
+def expected_tags(jr, tr):
+    exp = set()
+    for r, c, dyn in zip(jr['rules'], tr['oracle']['cond'], tr['oracle']['dyn']):
+        if c == 'T':
+            exp |= resolved_tags_spec(r, dyn)
+    return exp
+
+
+def any_abort(tr):
+    rs = [tr.get('fm') or {}, tr.get('ms') or {}] + list((tr.get('norm') or {}).values() if isinstance(tr.get('norm'), dict) and
+                                                          'first_match' in tr.get('norm') else [])
+    o = tr.get('oracle') or {}
+    return any('crash' in r for r in rs) or bool(o.get('gv_crash')) or 'C' in o.get('cond', []) or \
+        any(d[1] == 'crash' for dl in o.get('dyn', []) for d in dl)
+
+
 PART = {1: 'apply_transforms', 2: 'MerchantEngine.match(first_match)', 3: 'MerchantEngine.match(most_specific)',
         4: 'normalize_merchant(cached engine, first_match)', 5: 'normalize_merchant(cached engine, most_specific)',
         6: 'normalize_merchant(legacy tuple loop)'}
